@@ -993,9 +993,33 @@ func rootParam(v ssa.Value, depth int) *ssa.Parameter {
 	case *ssa.FieldAddr:
 		return rootParam(x.X, depth+1)
 	case *ssa.IndexAddr:
-		// element of an array reached through a pointer parameter (not of a slice: the slice header was loaded)
+		// element of an array reached through a pointer parameter
 		if _, ok := x.X.Type().Underlying().(*types.Pointer); ok {
 			return rootParam(x.X, depth+1)
+		}
+		// element of a slice whose header was loaded from a field of the parameter's structure: the storage
+		// belongs to that structure (&sps.LongTermRefPicSets[i])
+		if ld, ok := x.X.(*ssa.UnOp); ok && ld.Op == token.MUL {
+			if fa, ok := ld.X.(*ssa.FieldAddr); ok {
+				return rootParam(fa, depth+1)
+			}
+		}
+	case *ssa.Phi:
+		for _, e := range x.Edges {
+			if p := rootParam(e, depth+1); p != nil {
+				return p
+			}
+		}
+	case *ssa.Lookup:
+		// a pointer taken out of a map parameter (spsMap[id]) points into the caller's structures
+		if mp, ok := x.X.(*ssa.Parameter); ok {
+			if _, isMap := mp.Type().Underlying().(*types.Map); isMap {
+				return mp
+			}
+		}
+	case *ssa.Extract:
+		if lk, ok := x.Tuple.(*ssa.Lookup); ok && x.Index == 0 {
+			return rootParam(lk, depth+1)
 		}
 	}
 	return nil
@@ -2269,6 +2293,65 @@ func ruleHeaderMin(c *Ctx, r *Report) int {
 					guards[b] = true
 				}
 			}
+			// the comparison may live in a helper that returns an error: `if err := check(hdrLen, size); err != nil`
+			for _, b := range f.Blocks {
+				if len(b.Instrs) == 0 {
+					continue
+				}
+				ifi, ok := b.Instrs[len(b.Instrs)-1].(*ssa.If)
+				if !ok || !isErrorTest(ifi.Cond) {
+					continue
+				}
+				bo, ok := ifi.Cond.(*ssa.BinOp)
+				if !ok {
+					continue
+				}
+				for _, o := range []ssa.Value{bo.X, bo.Y} {
+					call, ok := o.(*ssa.Call)
+					if !ok {
+						continue
+					}
+					h := call.Call.StaticCallee()
+					if h == nil || h.Pkg == nil || h.Pkg != f.Pkg {
+						continue
+					}
+					si, hi := -1, -1
+					for ai, a := range call.Call.Args {
+						if inFlow(sizeSet, stripConv(a)) {
+							si = ai
+						}
+						if inFlow(hlSet, stripConv(a)) {
+							hi = ai
+						}
+					}
+					if si < 0 || hi < 0 || si >= len(h.Params) || hi >= len(h.Params) {
+						continue
+					}
+					for _, hb := range h.Blocks {
+						if len(hb.Instrs) == 0 {
+							continue
+						}
+						hif, ok := hb.Instrs[len(hb.Instrs)-1].(*ssa.If)
+						if !ok {
+							continue
+						}
+						hbo, ok := hif.Cond.(*ssa.BinOp)
+						if !ok {
+							continue
+						}
+						switch hbo.Op {
+						case token.LSS, token.LEQ, token.GTR, token.GEQ:
+						default:
+							continue
+						}
+						hx, hy := stripConv(hbo.X), stripConv(hbo.Y)
+						ps, ph := ssa.Value(h.Params[si]), ssa.Value(h.Params[hi])
+						if ((hx == ps && hy == ph) || (hx == ph && hy == ps)) && (blockRejects(hb.Succs[0]) != blockRejects(hb.Succs[1])) {
+							guards[b] = true
+						}
+					}
+				}
+			}
 			seen := map[*ssa.BasicBlock]bool{}
 			stack := []*ssa.BasicBlock{f.Blocks[0]}
 			reach := false
@@ -2743,26 +2826,28 @@ type liftedCmp struct {
 }
 
 // predicateHelperSites: f is an unexported function with a single bool result, and at every repository call site
-// the result (possibly negated) is branched on with the arm taken for `false` rejecting. Returns the call sites.
-func predicateHelperSites(c *Ctx, f *ssa.Function) []ssa.CallInstruction {
+// the result (possibly negated) is branched on with the arm taken for one and the same truth value rejecting.
+// Returns the call sites and that truth value (the polarity that means "reject").
+func predicateHelperSites(c *Ctx, f *ssa.Function) ([]ssa.CallInstruction, bool) {
 	if f.Object() == nil || f.Object().Exported() || f.Signature.Results().Len() != 1 {
-		return nil
+		return nil, false
 	}
 	if bt, ok := f.Signature.Results().At(0).Type().Underlying().(*types.Basic); !ok || bt.Kind() != types.Bool {
-		return nil
+		return nil, false
 	}
 	node := c.CallGraph().Nodes[f]
 	if node == nil || len(node.In) == 0 {
-		return nil
+		return nil, false
 	}
 	var sites []ssa.CallInstruction
+	pol, havePol := false, false
 	for _, e := range node.In {
 		if e.Site == nil {
-			return nil
+			return nil, false
 		}
 		v := e.Site.Value()
 		if v == nil || v.Referrers() == nil {
-			return nil
+			return nil, false
 		}
 		ok := false
 		var walk func(x ssa.Value, neg bool)
@@ -2774,28 +2859,67 @@ func predicateHelperSites(c *Ctx, f *ssa.Function) []ssa.CallInstruction {
 						walk(y, !neg)
 					}
 				case *ssa.If:
-					// arm taken when the helper returned false
-					arm := y.Block().Succs[1]
-					if neg {
-						arm = y.Block().Succs[0]
+					// Succs[0] is taken when the tested value is true, i.e. when the helper returned !neg
+					rej0, rej1 := blockRejects(y.Block().Succs[0]), blockRejects(y.Block().Succs[1])
+					if rej0 == rej1 {
+						continue
 					}
-					if blockRejects(arm) {
-						ok = true
+					p := !neg // helper result on arm 0
+					if rej1 {
+						p = neg
 					}
+					if havePol && p != pol {
+						continue
+					}
+					pol, havePol, ok = p, true, true
 				}
 			}
 		}
 		walk(v, false)
 		if !ok {
-			return nil
+			return nil, false
 		}
 		sites = append(sites, e.Site)
 	}
-	return sites
+	return sites, pol
+}
+
+// pathReturnsBool: taking the edge from -> to, the function returns the constant val (through jumps and the
+// return block's phi).
+func pathReturnsBool(from, to *ssa.BasicBlock, val bool, depth int) bool {
+	if depth > 6 || len(to.Instrs) == 0 {
+		return false
+	}
+	isVal := func(v ssa.Value) bool {
+		cv, ok := v.(*ssa.Const)
+		return ok && cv.Value != nil && cv.Value.Kind() == constant.Bool && constant.BoolVal(cv.Value) == val
+	}
+	switch x := to.Instrs[len(to.Instrs)-1].(type) {
+	case *ssa.Return:
+		if len(x.Results) != 1 {
+			return false
+		}
+		if isVal(x.Results[0]) {
+			return true
+		}
+		if phi, ok := x.Results[0].(*ssa.Phi); ok && phi.Block() == to {
+			for i, pr := range to.Preds {
+				if pr == from && isVal(phi.Edges[i]) {
+					return true
+				}
+			}
+		}
+	case *ssa.Jump:
+		// only blocks that do nothing else
+		if len(to.Instrs) == 1 {
+			return pathReturnsBool(to, to.Succs[0], val, depth+1)
+		}
+	}
+	return false
 }
 
 func liftedComparisons(c *Ctx, f *ssa.Function) []liftedCmp {
-	sites := predicateHelperSites(c, f)
+	sites, pol := predicateHelperSites(c, f)
 	if len(sites) == 0 {
 		return nil
 	}
@@ -2808,29 +2932,53 @@ func liftedComparisons(c *Ctx, f *ssa.Function) []liftedCmp {
 		}
 		return -1
 	}
+	isCmp := func(bo *ssa.BinOp) bool {
+		switch bo.Op {
+		case token.LSS, token.LEQ, token.GTR, token.GEQ:
+			return true
+		}
+		return false
+	}
 	var out []liftedCmp
-	for _, b := range f.Blocks {
-		if len(b.Instrs) == 0 {
-			continue
-		}
-		ifi, ok := b.Instrs[len(b.Instrs)-1].(*ssa.If)
-		if !ok {
-			continue
-		}
-		bo, ok := ifi.Cond.(*ssa.BinOp)
-		if !ok {
-			continue
-		}
+	add := func(bo *ssa.BinOp, rejTrue, rejFalse bool) {
 		ix, iy := paramIdx(bo.X), paramIdx(bo.Y)
-		if ix < 0 || iy < 0 {
-			continue
+		if ix < 0 && iy < 0 {
+			return
 		}
 		for _, s := range sites {
 			args := s.Common().Args
-			if ix >= len(args) || iy >= len(args) {
+			X, Y := bo.X, bo.Y
+			if ix >= 0 && ix < len(args) {
+				X = args[ix]
+			}
+			if iy >= 0 && iy < len(args) {
+				Y = args[iy]
+			}
+			out = append(out, liftedCmp{bo, X, Y, s.Parent(), s, rejTrue, rejFalse})
+		}
+	}
+	for _, b := range f.Blocks {
+		for _, ins := range b.Instrs {
+			bo, ok := ins.(*ssa.BinOp)
+			if !ok || !isCmp(bo) || bo.Referrers() == nil {
 				continue
 			}
-			out = append(out, liftedCmp{bo, args[ix], args[iy], s.Parent(), s, blockRejects(b.Succs[0]), blockRejects(b.Succs[1])})
+			for _, ref := range *bo.Referrers() {
+				switch y := ref.(type) {
+				case *ssa.If:
+					add(bo, pathReturnsBool(y.Block(), y.Block().Succs[0], pol, 0) || blockRejects(y.Block().Succs[0]) && !pol,
+						pathReturnsBool(y.Block(), y.Block().Succs[1], pol, 0) || blockRejects(y.Block().Succs[1]) && !pol)
+				case *ssa.Return:
+					// the comparison is the value returned: true means "reject" exactly when the polarity is true
+					add(bo, pol, !pol)
+				case *ssa.Phi:
+					if len(y.Block().Instrs) > 0 {
+						if ret, ok := y.Block().Instrs[len(y.Block().Instrs)-1].(*ssa.Return); ok && len(ret.Results) == 1 && ret.Results[0] == ssa.Value(y) {
+							add(bo, pol, !pol)
+						}
+					}
+				}
+			}
 		}
 	}
 	return out
